@@ -120,6 +120,18 @@ fn c09_signers() -> R {
     if let Err(m) = well_formed(&e) { return rt::viol("signed envelope not canonical", m); }
     let mask = 1 + choice(7);
     check_signers(&e, &keys, &signers, with_meta, &[mask])?;
+    if with_meta == 3 && mask == 7 {
+        // the bulk forms sign like the single form
+        op("add_signatures / add_signatures_opt");
+        let list: Vec<&dyn Signer> = (0..3).filter(|i| signers[*i]).map(|i| &keys[i].0 as &dyn Signer).collect();
+        let mut b = base.clone(); if before_other { b = b.add_assertion(leaf_text(300), leaf_text(301)); }
+        let mut bulk = b.add_signatures(&list); if !before_other { bulk = bulk.add_assertion(leaf_text(300), leaf_text(301)); }
+        ensure!(bytes(&bulk) == bytes(&e), "add_signatures differs from repeated add_signature", "signers {:?}", signers);
+        let list2: Vec<(&dyn Signer, Option<SigningOptions>, Option<SignatureMetadata>)> = list.iter().map(|k| (*k, None, None)).collect();
+        let mut bulk2 = b.add_signatures_opt(&list2); if !before_other { bulk2 = bulk2.add_assertion(leaf_text(300), leaf_text(301)); }
+        ensure!(bytes(&bulk2) == bytes(&e), "add_signatures_opt differs from repeated add_signature", "signers {:?}", signers);
+        for i in 0..3 { let m = must!(e.has_signature_from_returning_metadata(&keys[i].1), "has_signature_from_returning_metadata failed"); ensure!(m.is_some() == signers[i], "has_signature_from_returning_metadata disagrees with who signed", "key {}", i); }
+    }
     // a different subject: the same signature assertions do not verify
     op("has_signature_from (other subject)");
     let moved = e.replace_subject(build(&l(350)));
